@@ -346,16 +346,23 @@ def oracle(case):
                 return ("eager CG raises ValueError but compiled CG does not report info=-1",
                         _mk_sig("eager_static_disagree", what="failure"))
         else:
-            if "error" in rs_ or rs_["info"] != re["info"]:
+            xe = np.array(re["x"])
+            rres = np.linalg.norm(H @ xe - j)
+            # exact termination (residual at rounding level) is a rounding event: op-by-op and fused (FMA) evaluation may
+            # see gamma == 0 in different iterations; verdict and iteration count are compared only away from it
+            exact_event = rres <= 1e-13 * (np.linalg.norm(j) + np.linalg.norm(H) * np.linalg.norm(xe) + 1e-300) \
+                and case.get("kind") not in ("scaled_identity", "singular_dir")
+            if not exact_event and ("error" in rs_ or rs_["info"] != re["info"]):
                 return (f"eager CG reports info={re['info']} but compiled CG reports "
                         f"{rs_.get('info', rs_.get('error'))}", _mk_sig("eager_static_disagree", what="info"))
-            xe, xs = np.array(re["x"]), np.array(rs_["x"])
-            if np.max(np.abs(xe - xs)) > XTOL * (np.max(np.abs(xe)) + 1.0):
-                return ("eager and compiled CG return different solutions",
-                        _mk_sig("eager_static_disagree", what="x"))
-            if rs_["nit"] != re["nit"]:
-                return (f"eager CG stops after {re['nit']} iterations, compiled CG after {rs_['nit']}",
-                        _mk_sig("eager_static_disagree", what="nit"))
+            if "error" not in rs_ and rs_["info"] != -1:
+                xs = np.array(rs_["x"])
+                if np.max(np.abs(xe - xs)) > XTOL * (np.max(np.abs(xe)) + 1.0):
+                    return ("eager and compiled CG return different solutions",
+                            _mk_sig("eager_static_disagree", what="x"))
+                if rs_["nit"] != re["nit"] and not exact_event:
+                    return (f"eager CG stops after {re['nit']} iterations, compiled CG after {rs_['nit']}",
+                            _mk_sig("eager_static_disagree", what="nit"))
     return None
 
 
